@@ -201,6 +201,9 @@ type simMsg struct {
 	tiebreaker uint64
 	username   string
 	errCode    int
+	// attributes found behind MESSAGE-INTEGRITY (unauthenticated; RFC 5389 §15.4 says they are to be ignored)
+	trailingUse  bool
+	trailingRole string
 }
 
 type simDgram struct {
@@ -238,6 +241,24 @@ func simDecode(b []byte, nomAttr stun.AttrType) *simMsg {
 		return nil
 	}
 	out := &simMsg{class: m.Type.Class, method: m.Type.Method, txid: m.TransactionID}
+	// what a message "carries" is what its MESSAGE-INTEGRITY covers: attributes behind it are not authenticated
+	for i, a := range m.Attributes {
+		if a.Type == stun.AttrMessageIntegrity {
+			for _, t := range m.Attributes[i+1:] {
+				switch t.Type {
+				case stun.AttrUseCandidate, nomAttr:
+					out.trailingUse = true
+				case stun.AttrICEControlling:
+					out.trailingRole = "controlling"
+				case stun.AttrICEControlled:
+					out.trailingRole = "controlled"
+				}
+			}
+			m.Attributes = m.Attributes[:i+1]
+
+			break
+		}
+	}
 	out.useCand = m.Contains(stun.AttrUseCandidate)
 	var nom NominationAttribute
 	if err := nom.GetFromWithType(m, nomAttr); err == nil {
@@ -716,7 +737,7 @@ func (ag *simAgent) selectedPair() *CandidatePair {
 // sockByLocal finds the simSock carrying local candidate c.
 func (ag *simAgent) sockByLocal(c Candidate) *simSock {
 	for _, s := range ag.allSocks {
-		if s.cand == c {
+		if s.cand == c || (c != nil && c17Base(s.cand) != nil && c17Base(s.cand) == c17Base(c)) {
 			return s
 		}
 	}
@@ -794,6 +815,7 @@ type simReqOpts struct {
 	noPriority  bool
 	fingerprint bool
 	txid        *[stun.TransactionIDSize]byte
+	trailing    []stun.Setter // attributes appended after MESSAGE-INTEGRITY (not covered by it; RFC 5389 §15.4: to be ignored)
 }
 
 func simBuildRequest(o simReqOpts) *stun.Message {
@@ -824,6 +846,7 @@ func simBuildRequest(o simReqOpts) *stun.Message {
 	if o.key != "" {
 		setters = append(setters, stun.NewShortTermIntegrity(o.key))
 	}
+	setters = append(setters, o.trailing...)
 	if o.fingerprint {
 		setters = append(setters, stun.Fingerprint)
 	}
